@@ -353,5 +353,11 @@ PROPS["C20"]["manifest"]["text"] += (" The validation gates are theorems and a s
 PROPS["C18"]["manifest"]["text"] += (" The shared-state extractor also lists package-level arrays that are sliced and copy() into package-level variables; scenario"
                                      " enginelong validates transactions with scripts longer than the decoder's 64 KiB read chunk concurrently.")
 
+PROPS["C12"]["manifest"]["text"] += (" Tx.AddP2PKHInputsFromTx is modelled too (GoBT/Fee/FromTx.lean, op C12.fromtx): inputs_from_tx_spend_matching_outputs - every"
+                                     " input it adds spends an output of the previous transaction that pays to HASH160 of the key, with that output's index, value"
+                                     " and script; the transaction's own inputs are untouched.")
+PROPS["C11"]["manifest"]["text"] += (" Quotes that cannot answer (nil, a fee type missing, zero value) are a stream of their own (C11.noquote): every"
+                                     " fee-dependent operation reports an error and leaves the transaction alone.")
+
 NOT_APPLICABLE = {}
 HOOK_COMMITS = []
